@@ -121,6 +121,45 @@ theorem C17_token_ops_enabled (c : Cfg) (hm : 1 ≤ c.m) (hn : 1 ≤ c.n) (s : S
     have : s.used < c.m := by omega
     simp [step, h, hpc, this]
 
+/-- **A late consumer leaves a finished round untouched.**  A consumer that starts iterating when the
+    token set is already complete (the round is over, `renew` not yet called) ends at once: its only
+    step is the `used.full()` test, after which it is `done`; the data queue — in particular the one
+    surplus marker at its front —, the token queues and the lock are exactly as before; and no other
+    action moves that consumer (`renew` cannot even have started before it has ended). -/
+theorem C17_late_consumer (c : Cfg) (hm : 1 ≤ c.m) (hn : 1 ≤ c.n) (s : State) (hr : Reachable c s)
+    (j : Nat) (a : Con) (h : s.cons[j]? = some a) (hpc : a.pc = .chk1) (hu : c.m ≤ s.used) :
+    step c s (.cChk1 j) = some { s with cons := s.cons.set j { a with pc := .done } } ∧
+    (∀ act s', act ≠ .cChk1 j → step c s act = some s' → s'.cons[j]? = some a) := by
+  refine ⟨by simp [step, h, hpc, usedFull, hu], ?_⟩
+  intro act s' hne hs
+  have hstep := step_sound c s s' act hs
+  have keep : ∀ (k : Nat) (b : Con), k ≠ j → (s.cons.set k b)[j]? = some a := by
+    intro k b hk; rw [List.getElem?_set]; simp [hk, h]
+  have diff : ∀ (k : Nat) (b : Con), s.cons[k]? = some b → b.pc ≠ .chk1 → k ≠ j := by
+    intro k b hb hbp hkj; subst hkj; rw [h] at hb; cases hb; exact hbp hpc
+  cases hstep with
+  | cChk1Full k b hb hbp _ => exact keep k _ (by intro hk; subst hk; exact hne rfl)
+  | cChk1Go k b hb hbp _ => exact keep k _ (by intro hk; subst hk; exact hne rfl)
+  | cGetItem k i x rest b hb hbp _ => exact keep k _ (diff k b hb (by rw [hbp]; simp))
+  | cGetMark k rest b hb hbp _ => exact keep k _ (diff k b hb (by rw [hbp]; simp))
+  | cChk2Full k b hb hbp _ => exact keep k _ (diff k b hb (by rw [hbp]; simp))
+  | cChk2Go k b hb hbp _ => exact keep k _ (diff k b hb (by rw [hbp]; simp))
+  | cReput k b hb hbp _ => exact keep k _ (diff k b hb (by rw [hbp]; simp))
+  | cLock k b hb hbp _ => exact keep k _ (diff k b hb (by rw [hbp]; simp))
+  | cTake k b hb hbp _ => exact keep k _ (diff k b hb (by rw [hbp]; simp))
+  | cGive k b hb hbp _ => exact keep k _ (diff k b hb (by rw [hbp]; simp))
+  | cTest k b hb hbp => exact keep k _ (diff k b hb (by rw [hbp]; simp))
+  | cUnlockLast k b hb hbp => exact keep k _ (diff k b hb (by rw [hbp]; simp))
+  | cUnlockGo k b hb hbp => exact keep k _ (diff k b hb (by rw [hbp]; simp))
+  | cExtra k b hb hbp _ => exact keep k _ (diff k b hb (by rw [hbp]; simp))
+  | cRetry k b hb hw _ _ _ => exact keep k _ (diff k b hb (by intro hp; rw [hp] at hw; simp [CPc.waiting] at hw))
+  | cStop k b hb hw _ _ _ => exact keep k _ (diff k b hb (by intro hp; rw [hp] at hw; simp [CPc.waiting] at hw))
+  | rGetMark rest hrg hq hu2 =>
+    -- `renew` has started only if every consumer is done; consumer `j` is still at its start pc
+    have := ((all_reachable c hm hn hr).rn hrg).2 a (mem_of_getElem? h)
+    rw [hpc] at this; cases this
+  | _ => exact h
+
 /-- **Stop is answered within one wait interval.**  Let a stop have been requested at clock `ts`.
     (1) Whoever is still inside a blocking `get`/`put` (consumer, supplier, or `renew`) has been
     there for at most one wait interval `w` counted from the later of the stop request and the
